@@ -17,9 +17,10 @@ VARIABLES
   wCreated, \* opstamp at which the current writer was created (stale commit_opstamp, F-A)
   dirty,    \* operations were issued since the last commit / rollback / writer creation
   sorted,   \* "" | "v_asc" | "v_desc" (configuration of the run)
-  kf        \* a recorded finding was triggered in this run (content checks suspended)
+  kf,       \* a recorded finding was triggered in this run (content checks suspended)
+  calling   \* a commit call is in progress (between its `call` event and its result)
 
-vars == <<l, pend, commd, lo, metaop, payload, wopen, wCreated, dirty, sorted, kf>>
+vars == <<l, pend, commd, lo, metaop, payload, wopen, wCreated, dirty, sorted, kf, calling>>
 Ev == Rec[l]
 
 SeqToSet(s) == {s[i] : i \in 1..Len(s)}
@@ -99,7 +100,7 @@ TDeleteAll ==
   /\ Ev.ev = "delete_all" /\ Ev.ok /\ wopen
   /\ Ev.opstamp = wCreated /\ lo' = wCreated
   /\ pend' = {}
-  /\ kf' = (kf \/ (dirty /\ Known("F-B/F-C delete_all with pending operations")))
+  /\ kf' = (kf \/ (IF dirty THEN Known("F-B/F-C delete_all with pending operations") ELSE FALSE))
   /\ dirty' = TRUE
   /\ UNCHANGED <<commd, metaop, payload, wopen, wCreated, sorted>>
 
@@ -116,8 +117,8 @@ TCommit ==
   /\ ("prepared_opstamp" \in DOMAIN Ev => Ev.prepared_opstamp = Ev.opstamp)
   \* what the writer reports: finding F-A (commit_opstamp() is the opstamp of writer creation)
   /\ ("writer_commit_opstamp" \in DOMAIN Ev =>
-        \/ Ev.writer_commit_opstamp = Ev.opstamp
-        \/ (Ev.writer_commit_opstamp = wCreated /\ Known("F-A commit_opstamp() is stale")))
+        IF Ev.writer_commit_opstamp = Ev.opstamp THEN TRUE
+        ELSE Ev.writer_commit_opstamp = wCreated /\ Known("F-A commit_opstamp() is stale"))
   /\ dirty' = FALSE
   /\ UNCHANGED <<pend, wopen, wCreated, sorted, kf>>
 
@@ -162,13 +163,42 @@ TNoWriter ==
   /\ "err" \in DOMAIN Ev /\ Ev.err = "nowriter" /\ ~wopen
   /\ UNCHANGED <<pend, commd, lo, metaop, payload, wopen, wCreated, dirty, sorted, kf>>
 
+
+TCall ==
+  /\ Ev.ev = "call"
+  /\ UNCHANGED <<pend, commd, lo, metaop, payload, wopen, wCreated, dirty, sorted, kf>>
+
+\* C01 / C10: a crash image materialised at this point of the run and recovered with the real
+\* code.  It must open, pass its checksums, hold exactly the last acknowledged commit (or the
+\* one in progress), and accept a writer, an add, a commit and a garbage collection.
+ProbeDoc == [id |-> 9999, t |-> "zz", v |-> 0]
+TCrashImage ==
+  /\ Ev.ev = "crash_image"
+  /\ "panic" \notin DOMAIN Ev.rec
+  /\ LET o == Ev.rec.obs IN
+     /\ ObsConsistent(o) /\ ObsSorted(o)
+     /\ kf \/ ObsDocs(o) = commd \/ (calling /\ ObsDocs(o) = pend)
+     /\ "damaged" \in DOMAIN Ev.rec /\ Ev.rec.damaged = <<>>
+     /\ LET a == Ev.rec.after IN
+        /\ a.writer = "ok" /\ a.add /\ a.commit /\ a.gc /\ a.wait
+        /\ ObsConsistent(a.obs) /\ ObsDocs(a.obs) = ObsDocs(o) \cup {ProbeDoc}
+        /\ a.locks = <<>>
+        /\ \A i \in 1..Len(a.orphans) : a.orphans[i][2]
+        /\ IF a.orphans = <<>> THEN TRUE
+           ELSE Known("F4 orphan after recovering a crash image: registered in .managed.json but the registration was not durable")
+  /\ UNCHANGED <<pend, commd, lo, metaop, payload, wopen, wCreated, dirty, sorted, kf>>
+
 TNext ==
   /\ l <= Len(Rec) /\ l' = l + 1
   /\ \/ TReset \/ TNewWriter \/ TDropWriter \/ TAdd \/ TDel \/ TRun \/ TDeleteAll \/ TCommit
      \/ TRollback \/ TMerge \/ TWaitMerges \/ TGc \/ TObserve \/ TEnd \/ TNoWriter
+     \/ TCall \/ TCrashImage
+  /\ calling' = CASE Ev.ev = "call" -> TRUE
+                  [] Ev.ev \in {"commit", "prepare_commit", "prepare_abort", "reset"} -> FALSE
+                  [] OTHER -> calling
 
 TInit == /\ l = 1 /\ pend = {} /\ commd = {} /\ lo = 0 /\ metaop = 0 /\ payload = "null"
-         /\ wopen = FALSE /\ wCreated = 0 /\ dirty = FALSE /\ sorted = "" /\ kf = FALSE
+         /\ wopen = FALSE /\ wCreated = 0 /\ dirty = FALSE /\ sorted = "" /\ kf = FALSE /\ calling = FALSE
 TSpec == TInit /\ [][TNext]_vars
 
 Accepted ==
